@@ -1,5 +1,5 @@
 (* C02 - CTAP2 response encoding carries every member under its specified key, exactly. *)
-From Ctap Require Import Base Schema Wire Typed Procs Inst Tables ProcTables Finite Canonical WireP SerP FramingP ObResponseSide ObRespTables.
+From Ctap Require Import Base Schema Wire Typed Procs Inst Tables ProcTables Finite Canonical WireP SerP FramingP ObResponseSide ObRespTables FnShapes Shapes ObShapeResponse.
 Local Open Scope string_scope.
 Local Open Scope Z_scope.
 
@@ -92,6 +92,11 @@ Proof. exact generated_response_side. Qed.
 Theorem c02_generated_tables : forallb (fun f => resp_tables_equiv (gen_tables f)) all_feats = true.
 Proof. exact generated_resp_tables. Qed.
 
+(* tie to the source for the hand-modelled procedural code: the bodies of these functions, as regenerated from
+   /repo now, have the shape (literals, operators, calls, control flow, constants) the model was written against *)
+Theorem c02_modelled_functions_unchanged_response : shapes_hold fn_shapes shapes_response = true.
+Proof. exact generated_shapes_response. Qed.
+
 Eval vm_compute in "ASSUMPTIONS c02_message". Print Assumptions c02_message.
 Eval vm_compute in "ASSUMPTIONS c02_parameterless". Print Assumptions c02_parameterless.
 Eval vm_compute in "ASSUMPTIONS c02_next_assertion_same". Print Assumptions c02_next_assertion_same.
@@ -102,3 +107,4 @@ Eval vm_compute in "ASSUMPTIONS c02_unset_optional_not_emitted". Print Assumptio
 Eval vm_compute in "ASSUMPTIONS c02_each_member_once". Print Assumptions c02_each_member_once.
 Eval vm_compute in "ASSUMPTIONS c02_generated_conforms". Print Assumptions c02_generated_conforms.
 Eval vm_compute in "ASSUMPTIONS c02_generated_tables". Print Assumptions c02_generated_tables.
+Eval vm_compute in "ASSUMPTIONS c02_modelled_functions_unchanged_response". Print Assumptions c02_modelled_functions_unchanged_response.
